@@ -144,6 +144,33 @@ static inline int spec_strto_digit_step(void)
     return 0;
 }
 
+/* ---- ato* (ISO 7.22.1.2): atol(s) == strtol(s, NULL, 10) "except for the behavior on error"; when the value
+ * cannot be represented the behaviour is undefined, so "the value is representable" is a precondition. ----
+ *
+ * atol's white-space loop `while (isspace(*p)) ++p;` has no block body into which a machine step could be
+ * injected.  The text is therefore described by the harness as "g_ws white-space characters followed by a
+ * character that is not white space" (g_ws arbitrary): the second half is a plain assumption about t[g_ws], the
+ * first half is the hypothesis "t[k] is white space for every k < g_ws", which is instantiated once, at the index
+ * where the code's loop stopped. */
+static size_t g_ws;
+
+static inline void spec_ato_ws_done(size_t stopped_at)
+{
+    __CPROVER_assume(!(stopped_at < g_ws) || spec_isspace(g_t[stopped_at]));
+    g_i = g_ws;
+}
+
+/* digit step for ato*: as spec_strto_digit_step, plus the precondition "representable" and the known-finding
+ * region C11_atol_min (kf as in spec_strto_head): the magnitude 2^(bits-1), legal only behind a minus sign */
+static inline int spec_ato_digit_step(int bits, int kf)
+{
+    int r = spec_strto_digit_step();
+    __CPROVER_assume(!g_sat);
+    if (kf == 1)
+        __CPROVER_assume(!(bits == 64 && g_val == ((spec_wide)1 << 63)));
+    return r;
+}
+
 /* the machine stands on the first character that is not part of the subject sequence */
 static inline int spec_strto_stopped(void)
 {
